@@ -24,13 +24,16 @@ func (k Keeper) SlashStakingPool(ctx sdk.Context, validator string, slash sdk.De
 	defaultDenom := k.sk.DefaultDenom(ctx)
 	defaultDenomAmount := totalSlashedTokens.AmountOf(defaultDenom)
 	burnAmount := sdk.Coins{sdk.NewCoin(defaultDenom, defaultDenomAmount)}
-	err := k.bankKeeper.BurnCoins(ctx, types.ModuleName, burnAmount)
-	if err != nil {
-		panic(err)
+	// nothing to burn (no default-denom stake, or slash 0): BurnCoins rejects "0ukex" as invalid coins
+	if defaultDenomAmount.IsPositive() {
+		err := k.bankKeeper.BurnCoins(ctx, types.ModuleName, burnAmount)
+		if err != nil {
+			panic(err)
+		}
 	}
 
 	treasurySendAmount := totalSlashedTokens.Sub(burnAmount...)
-	err = k.bankKeeper.SendCoinsFromModuleToModule(ctx, types.ModuleName, authtypes.FeeCollectorName, treasurySendAmount)
+	err := k.bankKeeper.SendCoinsFromModuleToModule(ctx, types.ModuleName, authtypes.FeeCollectorName, treasurySendAmount)
 	if err != nil {
 		panic(err)
 	}
